@@ -6,9 +6,8 @@ import (
 	"go/ast"
 	"go/token"
 	"go/types"
+	"sort"
 	"strings"
-
-	"golang.org/x/tools/go/cfg"
 
 	"rscheck/cfgq"
 	"rscheck/core"
@@ -28,46 +27,185 @@ func (r *rs) r6() {
 			return flow.MethodOn(call, name, isW) && len(call.Args) == 1 && arg(call.Args[0])
 		}
 	}
-	// a terminator write: w.WriteString(K) or w.Write(K) with K a constant byte string
-	termBytes := func(body ast.Node, call *ast.CallExpr) ([]byte, bool) {
-		if !(flow.MethodOn(call, "WriteString", isW) || flow.MethodOn(call, "Write", isW)) || len(call.Args) != 1 {
-			return nil, false
-		}
-		return flow.ConstBytes(info, body, call.Args[0])
-	}
-	// checks the constant terminator emitted by fn and returns the step locating it
-	crlf := func(fn *core.Fn, g *cfgq.Graph) flow.Step {
-		isTerm := func(call *ast.CallExpr) bool { _, ok := termBytes(fn.Decl.Body, call); return ok }
-		for _, call := range flow.FindCalls(fn.Decl.Body, isTerm) {
-			s, _ := termBytes(fn.Decl.Body, call)
-			c.Check("R6.grammar", fn.Decl.Name.Name+"/terminator", call.Pos(), string(s) == "\r\n", fmt.Sprintf("the terminator written is %q, RESP requires CR LF: the decoder rejects (or mis-frames) what the encoder produced", s))
-		}
-		return flow.Step{Name: "write CRLF", Is: flow.CallOn(g, isTerm)}
-	}
-	seq := func(fn *core.Fn, g *cfgq.Graph, wcalls int, steps ...flow.Step) {
+	// What a function writes is read off every path as a sequence of emissions, however the writes are
+	// spelled: P = the value handed in (w.Write(p) / w.WriteString(p)), K<bytes> = constant bytes
+	// (w.Write/WriteString of a constant, w.WriteByte of a constant; adjacent constants are one run),
+	// L = a length line (encodeInt of something that is not the constant -1), N = the nil marker
+	// (encodeInt(-1)), ? = anything else done with the writer.
+	encodeIntFn := r.method("encoder", "encodeInt")
+	seq := func(fn *core.Fn, g *cfgq.Graph, payloadMethod string, want func(nilValue bool) string, wantText string) {
 		name := fn.Decl.Name.Name
-		if n := len(flow.FindCalls(fn.Decl.Body, func(call *ast.CallExpr) bool {
-			sel, ok := ast.Unparen(call.Fun).(*ast.SelectorExpr)
-			return ok && isW(sel.X)
-		})); n != wcalls {
-			c.Undecidedf("R6.grammar", name+"/sequence", fn.Decl.Pos(), "%d writes on the buffered writer, %d expected", n, wcalls)
+		p := param(info, fn, 0)
+		type outcome struct {
+			sig string
+			nil bool
+			pos token.Pos
+		}
+		var outs []outcome
+		seenOut := map[string]bool{}
+		var termPos token.Pos
+		runs := map[string]bool{}
+		w := &flow.Sym{G: g}
+		emit := func(st *flow.SState, tok string) {
+			cur := st.Marks["out"].Tok
+			if strings.HasPrefix(tok, "K") {
+				// merge with a constant run that ends the signature
+				if i := strings.LastIndex(cur, " "); i >= 0 && strings.HasPrefix(cur[i+1:], "K") {
+					cur = cur + tok[1:]
+					st.Marks["out"] = flow.SVal{Tok: cur}
+					return
+				}
+			}
+			st.Marks["out"] = flow.SVal{Tok: cur + " " + tok}
+		}
+		w.Visit = func(m ast.Node, st *flow.SState) bool {
+			for _, call := range cfgq.ExecCalls(m) {
+				if encodeIntFn != nil && core.CalleeFunc(info, call) == encodeIntFn.Obj && len(call.Args) == 1 {
+					// the nil marker is the VALUE -1 on this path, whatever carries it
+					switch v := w.Eval(call.Args[0], st); {
+					case isConst(info, call.Args[0], -1) || v.Kind == flow.SInt && v.K == -1:
+						emit(st, "N")
+					case p != nil && lin.Of(info, flow.Resolve(info, fn.Decl.Body, call.Args[0])).Equal(flow.LenForm(info, p)):
+						emit(st, "L")
+					case v.Kind == flow.SInt:
+						emit(st, fmt.Sprintf("I%d", v.K)) // some other constant line: located and wrong
+					default:
+						// an integer whose value on this path is not known: on the non-nil path it is taken for the
+						// length line (that it IS len(value) is R5's obligation), on a nil path nothing can be said
+						onNil := false
+						if p != nil {
+							pid := ast.NewIdent(p.Name())
+							info.Uses[pid] = p
+							onNil = w.Eval(pid, st).Kind == flow.SNil
+						}
+						if onNil {
+							emit(st, "?")
+						} else {
+							emit(st, "L")
+						}
+					}
+					continue
+				}
+				sel, isSel := ast.Unparen(call.Fun).(*ast.SelectorExpr)
+				if !isSel || !isW(sel.X) {
+					for _, a := range call.Args {
+						if isW(a) {
+							emit(st, "?") // the writer is handed to code the rule does not know
+						}
+					}
+					continue
+				}
+				switch {
+				case len(call.Args) == 1 && sel.Sel.Name == payloadMethod && p != nil && flow.IsObj(info, p)(call.Args[0]):
+					emit(st, "P")
+				case len(call.Args) == 1 && (sel.Sel.Name == "Write" || sel.Sel.Name == "WriteString"):
+					if k, ok := flow.ConstBytes(info, fn.Decl.Body, call.Args[0], r.pk.Syntax...); ok {
+						if !termPos.IsValid() {
+							termPos = call.Pos()
+						}
+						emit(st, fmt.Sprintf("K%x", k))
+					} else {
+						emit(st, "?")
+					}
+				case len(call.Args) == 1 && (sel.Sel.Name == "WriteByte" || sel.Sel.Name == "WriteRune"):
+					if k, ok := core.IntConst(info, call.Args[0]); ok && k >= 0 && k < 128 {
+						if !termPos.IsValid() {
+							termPos = call.Pos()
+						}
+						emit(st, fmt.Sprintf("K%02x", k))
+					} else {
+						emit(st, "?")
+					}
+				case sel.Sel.Name == "Flush" || sel.Sel.Name == "Buffered" || sel.Sel.Name == "Available" || sel.Sel.Name == "Size":
+				default:
+					emit(st, "?")
+				}
+			}
+			ret, ok := m.(*ast.ReturnStmt)
+			if !ok {
+				return false
+			}
+			if len(ret.Results) == 1 {
+				if v := w.Eval(ret.Results[0], st); v.Kind == flow.SNonNil || v.Kind != flow.SNil && flow.ErrReturn(info, fn.Decl.Body, ret) {
+					return true // an error return: what was written so far is void
+				}
+			}
+			o := outcome{sig: strings.TrimSpace(st.Marks["out"].Tok), pos: ret.Pos()}
+			if p != nil {
+				pid := ast.NewIdent(p.Name())
+				info.Uses[pid] = p
+				o.nil = w.Eval(pid, st).Kind == flow.SNil
+			}
+			if k := fmt.Sprintf("%s|%v", o.sig, o.nil); !seenOut[k] {
+				seenOut[k] = true
+				outs = append(outs, o)
+			}
+			return true
+		}
+		w.Run(nil)
+		if w.Overflow || w.UnknownCalls > 0 || len(outs) == 0 {
+			c.Undecidedf("R6.grammar", name+"/sequence", fn.Decl.Pos(), "cannot enumerate what %s writes on its successful paths", name)
 			return
 		}
-		// a path on which the value was found to be nil has nothing more to write
-		var cut func(*cfg.Block, int) bool
-		if v := param(info, fn, 0); v != nil {
-			cut = flow.Establishes(g, func(f cfgq.Fact) bool { isNil, ok := flow.NilCmp(info, f, flow.IsObj(info, v)); return ok && isNil })
+		bad, und := "", ""
+		var badPos token.Pos
+		for _, o := range outs {
+			for _, tok := range strings.Fields(o.sig) {
+				if strings.HasPrefix(tok, "K") {
+					runs[tok[1:]] = true
+				}
+			}
+			switch {
+			case strings.Contains(o.sig, "?"):
+				und = o.sig
+			case o.sig != want(o.nil) && bad == "":
+				bad, badPos = o.sig, o.pos
+			}
 		}
-		problem, w, und := flow.SequenceCut(g, steps, cut)
-		if und {
-			c.Undecidedf("R6.grammar", name+"/sequence", fn.Decl.Pos(), "%s", problem)
-			return
+		// the constant terminator
+		if len(runs) > 0 {
+			var all []string
+			for k := range runs {
+				all = append(all, k)
+			}
+			sort.Strings(all)
+			wrong := ""
+			for _, k := range all {
+				if k != "0d0a" && wrong == "" {
+					wrong = k
+				}
+			}
+			var raw []byte
+			fmt.Sscanf(wrong, "%x", &raw)
+			if wrong == "" {
+				c.Okf("R6.grammar", name+"/terminator", termPos, "the constant bytes written are CR LF")
+			} else {
+				c.Failf("R6.grammar", name+"/terminator", termPos, "the terminator written is %q, RESP requires CR LF: the decoder rejects (or mis-frames) what the encoder produced", raw)
+			}
 		}
-		var names []string
-		for _, s := range steps {
-			names = append(names, s.Name)
+		switch {
+		case und != "" && bad == "":
+			c.Undecidedf("R6.grammar", name+"/sequence", fn.Decl.Pos(), "a path of %s uses the writer in a way that is not recognised (emissions: %s)", name, und)
+		default:
+			pos := fn.Decl.Pos()
+			if bad != "" {
+				pos = badPos
+			}
+			// a wrong terminator is reported by the terminator obligation; the order is judged with the run as written
+			okSeq := bad == ""
+			if !okSeq && len(runs) == 1 && !runs["0d0a"] {
+				var only string
+				for k := range runs {
+					only = k
+				}
+				okSeq = strings.ReplaceAll(bad, "K"+only, "K0d0a") == want(false) || strings.ReplaceAll(bad, "K"+only, "K0d0a") == want(true)
+			}
+			if okSeq {
+				c.Okf("R6.grammar", name+"/sequence", pos, "%s emits %s on every successful path, and nothing else", name, wantText)
+			} else {
+				c.Failf("R6.grammar", name+"/sequence", pos, "%s must emit %s on every successful path (found the emissions %q; P = the value, K = constant bytes, L = length line, N = nil marker, I = another integer line): the decoder expects exactly this framing", name, wantText, bad)
+			}
 		}
-		c.Check("R6.grammar", name+"/sequence", fn.Decl.Pos(), problem == "", fmt.Sprintf("%s must emit %s in this order on every successful path (%s): the decoder expects exactly this framing", name, strings.Join(names, ", "), problem), w...)
 	}
 	if fn := r.method("encoder", "encodeType"); fn != nil {
 		t := param(info, fn, 0)
@@ -80,9 +218,8 @@ func (r *rs) r6() {
 	}
 	for _, tc := range []struct{ name, method string }{{"encodeText", "Write"}, {"encodeString", "WriteString"}} {
 		if fn := r.method("encoder", tc.name); fn != nil {
-			g := cfgq.Of(c.Program, fn)
-			p := param(info, fn, 0)
-			seq(fn, g, 2, flow.Step{Name: "write payload", Is: flow.CallOn(g, wcall(tc.method, flow.IsObj(info, p)))}, crlf(fn, g))
+			g := flow.GraphOf(c.Program, fn)
+			seq(fn, g, tc.method, func(bool) string { return "P K0d0a" }, "the payload, then CR LF")
 		}
 	}
 	encodeString, itos := r.method("encoder", "encodeString"), r.inl.Fn(c.Func(pkg, "", "itos"))
@@ -107,12 +244,16 @@ func (r *rs) r6() {
 		})}
 	}
 	if fn := r.flatMethod("encoder", "encodeBulkBytes"); fn != nil {
-		g := cfgq.Of(c.Program, fn)
-		p := param(info, fn, 0)
-		seq(fn, g, 2, lenStep(g, p), flow.Step{Name: "write payload", Is: flow.CallOn(g, wcall("Write", flow.IsObj(info, p)))}, crlf(fn, g))
+		g := flow.GraphOf(c.Program, fn)
+		seq(fn, g, "Write", func(nilValue bool) string {
+			if nilValue {
+				return "N"
+			}
+			return "L P K0d0a"
+		}, "the nil marker for a nil value; otherwise the length line, the payload, then CR LF")
 	}
 	if fn := r.method("encoder", "encodeArray"); fn != nil {
-		g := cfgq.Of(c.Program, fn)
+		g := flow.GraphOf(c.Program, fn)
 		p := param(info, fn, 0)
 		ab := pat.Binds{"_a": fn.Decl.Type.Params.List[0].Names[0]}
 		var elem *ast.CallExpr
@@ -135,6 +276,20 @@ func (r *rs) r6() {
 			}
 			return true
 		})
+		if elem == nil {
+			// any other spelling of the loop (goto back to a label, the test inside the body): judged on the graph
+			for _, call := range flow.FindCalls(fn.Decl.Body, func(call *ast.CallExpr) bool {
+				return core.CalleeFunc(info, call) == encodeResp.Obj && len(call.Args) == 1
+			}) {
+				ix, ok := ast.Unparen(call.Args[0]).(*ast.IndexExpr)
+				if !ok || !flow.IsObj(info, p)(ix.X) {
+					continue
+				}
+				if up, found := flow.PointOf(g, call); found && flow.CountingCFG(g, up, flow.Obj(info, ix.Index), flow.LenForm(info, p)) {
+					elem = call
+				}
+			}
+		}
 		nresp := len(flow.FindCalls(fn.Decl.Body, func(call *ast.CallExpr) bool { return core.CalleeFunc(info, call) == encodeResp.Obj }))
 		if elem == nil || nresp != 1 {
 			c.Undecidedf("R6.grammar", "encodeArray/sequence", fn.Decl.Pos(), "cannot find the loop that encodes every element of the array once, in index order")
@@ -161,7 +316,7 @@ func (r *rs) r7() {
 	if fn == nil {
 		return
 	}
-	g := cfgq.Of(c.Program, fn)
+	g := flow.GraphOf(c.Program, fn)
 	i := param(info, fn, 0)
 	// the lookup: `return table[IDX]` on a package-level table, IDX = i + bias as a linear form
 	var ret *ast.ReturnStmt
